@@ -904,7 +904,9 @@ def r33(ctx: Ctx) -> RuleReport:
                         'attribute reification has no nested node to open: the Push of an attribute triple cannot exist' if i in discard_ok
                         else 'markers of this kind are silently lost')
                 continue
-            used = sum(1 for n in walk_local(f2.node) if isinstance(n, ast.Name) and n.id == nm and isinstance(n.ctx, ast.Load))
+            pm2 = ctx.repo.parent_map(f2.node)
+            used = sum(1 for n in walk_local(f2.node) if isinstance(n, ast.Name) and n.id == nm and isinstance(n.ctx, ast.Load)
+                       and not isinstance(pm2.get(id(n)), (ast.If, ast.While, ast.BoolOp, ast.UnaryOp, ast.Compare)))      # a mere test does not carry it over
             # where the bucket is handed on (append / extend / returned / aliased), the only admissible condition is "the bucket is not empty"
             from ..resolve import facts_ex as _fx
             extra = None
